@@ -242,17 +242,17 @@ type loadRec struct {
 	Op         *Op // the operation whose loader this is
 	TaskRef    *simrt.Task
 	InstallEnd uint64 // when the executor function / operation that ran the loader returned (0: unknown)
-	Task    int
-	Enter   uint64
-	Exit    uint64
-	Keys    []int
-	Reload  bool
-	Olds    []int
-	Bulk    bool
-	Plan    LoadPlan
-	Ret     map[int]int
-	OpIdx   int
-	Outcome string
+	Task       int
+	Enter      uint64
+	Exit       uint64
+	Keys       []int
+	Reload     bool
+	Olds       []int
+	Bulk       bool
+	Plan       LoadPlan
+	Ret        map[int]int
+	OpIdx      int
+	Outcome    string
 }
 
 var errLoad = errors.New("verif: injected loader error")
@@ -261,6 +261,7 @@ type injectedPanic struct{ id int }
 
 // taskCtx is attached to simrt.Task.Tag.
 type taskCtx struct {
+	bg     int // >0 while running a function handed to the executor (background context)
 	id     int
 	opIdx  int
 	opKind string
@@ -425,7 +426,7 @@ func NewRunner(w *simrt.World, cfg *Cfg) *Runner {
 
 func (r *Runner) mkEvent(e otter.DeletionEvent[int, int], atomic bool) Event {
 	ev := Event{Seq: r.W.Tick(), Atomic: atomic, K: e.Key, V: e.Value, Cause: e.Cause, Task: -1, OpIdx: -1, Now: r.W.Now}
-	if c := curCtx(); c != nil {
+	if c := curCtx(); c != nil && c.bg == 0 {
 		ev.Task, ev.OpIdx, ev.OpKind = c.id, c.opIdx, c.opKind
 	}
 	return ev
@@ -437,6 +438,10 @@ func (r *Runner) runExec(fn func()) {
 	r.ExecRuns++
 	start := len(r.Loads)
 	me := simrt.Cur()
+	if c := curCtx(); c != nil {
+		c.bg++
+		defer func() { c.bg-- }()
+	}
 	defer func() {
 		if p := recover(); p != nil {
 			r.bgExecPanics = append(r.bgExecPanics, p)
@@ -788,7 +793,7 @@ func (r *Runner) Exec(op *Op) (res Result) {
 // awaitRefresh receives a manual refresh result. With the queued executor the reload sits in the
 // queue, so the queue is run first (the result channel has capacity 1).
 func (r *Runner) awaitRefresh(recv func()) {
-	if r.Cfg.Executor == "queued" {
+	if r.Cfg.Executor == "queued" && r.onQueue == nil {
 		r.RunQueued(-1, nil)
 	}
 	recv()
